@@ -311,6 +311,11 @@ func TestVerif_C06(t *testing.T) {
 	}
 	run.Count("oracle_selftests_passed", int64(nSelf))
 
+	if run.Env.Replay != "" {
+		c06Replay(run)
+		return
+	}
+
 	bulk := c06RunBulk(run)
 	bulk.Acc.flush(run)
 	for k, v := range bulk.Stats {
@@ -570,4 +575,51 @@ func c06Fidelity(run *vfRun) {
 			}
 		}
 	})
+}
+
+// ---------------------------------------------------------------------------------------------------------
+// replay: ./check C06 --replay replays/C06/<hash>.json re-executes exactly the (channel, whitelist, input) of a witness
+
+func c06Replay(run *vfRun) {
+	b, err := os.ReadFile(run.Env.Replay)
+	if err != nil {
+		run.T.Fatalf("c06 replay: %v", err)
+	}
+	var wit struct {
+		Detail c06Case `json:"detail"`
+	}
+	if err := json.Unmarshal(b, &wit); err != nil {
+		run.T.Fatalf("c06 replay: %v", err)
+	}
+	in, err := strconv.Unquote(wit.Detail.Input)
+	if err != nil {
+		run.T.Fatalf("c06 replay: input %s: %v", wit.Detail.Input, err)
+	}
+	ch := wit.Detail.Channel
+	if strings.HasPrefix(ch, "fidelity:") {
+		run.T.Fatalf("c06 replay: fidelity witnesses are replayed by running the check with the same seed (input %s)", wit.Detail.Input)
+	}
+	w0 := vfNewWorld(run.T)
+	defer w0.Close()
+	for _, wl := range c06WLs {
+		if wl.Kind != wit.Detail.WL {
+			continue
+		}
+		cx, err := c06NewCtx(w0, wl)
+		if err != nil {
+			run.T.Fatalf("c06 replay: %v", err)
+		}
+		if err := cx.Rotate(run.T); err != nil {
+			run.T.Fatalf("c06 replay: %v", err)
+		}
+		defer cx.Close()
+		acc := c06NewAcc()
+		if strings.HasPrefix(ch, "wire:") {
+			cx.wireCompare(acc, in)
+		} else {
+			cx.drive(acc, ch, in, &c06State{})
+		}
+		acc.flush(run)
+	}
+	run.Finish(1, 0)
 }
